@@ -184,6 +184,25 @@ def check_state(ctx, st, idx, pid='C06'):
         ctx.violation(sig + f'raises|{kindsig(r)}|{type(ex).__name__}', f'conversion raised {ex!r}', case)
         return True
     ctx.case((json.dumps(w), json.dumps(r, sort_keys=True), conf[0], conf[1]), True)
+    # regions made without meta/visual have their own empty ones: editing those of one region never shows in another region
+    if r['k'] != 'compound':
+        try:
+            with warnings.catch_warnings():
+                warnings.simplefilter('ignore')
+                bare = type(pix)(**{pn: getattr(pix, pn) for pn in pix._params})
+                bare.meta['include'] = False
+                bare.meta['label'] = 'somebody else'
+                bare.visual['color'] = 'blue'
+                sky0 = type(sky)(**{pn: getattr(sky, pn) for pn in sky._params})
+                p0 = sky0.to_pixel(wcs)
+                s0 = type(pix)(**{pn: getattr(pix, pn) for pn in pix._params}).to_sky(wcs)
+            for nm, obj in (('a sky region made without meta', sky0), ('its pixel image', p0), ('the sky image of a pixel region made without meta', s0)):
+                if dict(obj.meta) or dict(obj.visual):
+                    ctx.violation(sig + f'meta|{kindsig(r)}|leak', f'{nm} carries meta {dict(obj.meta)} / visual {dict(obj.visual)} after another region of the class was edited in place', case)
+                    return True
+        except Exception as ex:  # noqa
+            ctx.violation(sig + f'meta|{kindsig(r)}|leak-raises|{type(ex).__name__}', f'{ex!r}', case)
+            return True
     if type(sky).__name__ != SKYCLS[type(pix).__name__] or type(back) is not type(pix):
         ctx.violation(sig + f'class|{kindsig(r)}', f'{type(pix).__name__} -> {type(sky).__name__} -> {type(back).__name__}', case)
         return True
@@ -249,6 +268,28 @@ def check_state(ctx, st, idx, pid='C06'):
                 return True
         except Exception as ex:  # noqa
             ctx.violation(sig + f'sky-first-raises|{kindsig(r)}|{type(ex).__name__}', f'sky compound conversion raised {ex!r}', case)
+            return True
+        # a compound takes any binary callable: with a non-commutative one (set difference) the operands keep their places; and the
+        # answer for a batch that lies wholly outside the first operand (and for single far positions) is still that of the pixel image
+        try:
+            with warnings.catch_warnings():
+                warnings.simplefilter('ignore')
+                diff = lambda a, b: np.logical_and(a, np.logical_not(b))  # noqa
+                for opname, op_, meta_ in (('difference', diff, RegionMeta()), ('and', sky.operator, sky.meta.copy()), ('difference-excluded', diff, RegionMeta({'include': False}))):
+                    for first, second in ((sky.region1, sky.region2), (sky.region2, sky.region1)):
+                        sc_ = R.CompoundSkyRegion(first, second, op_, meta=meta_.copy(), visual=RegionVisual())
+                        pc_ = sc_.to_pixel(wcs)
+                        far = wcs.pixel_to_world(gx + 500.0, gy - 300.0)
+                        for what, pos_sky, pos_pix in (('window', wcs.pixel_to_world(gx, gy), PixCoord(gx, gy)), ('far batch', far, PixCoord(gx + 500.0, gy - 300.0)),
+                                                       ('far scalar', wcs.pixel_to_world(gx[0] + 500.0, gy[0] - 300.0), PixCoord(gx[0] + 500.0, gy[0] - 300.0))):
+                            b1 = np.asarray(sc_.contains(pos_sky, wcs))
+                            b2 = np.asarray(pc_.contains(pos_pix))
+                            if b1.shape != b2.shape or (b1 != b2).mean() > (0.1 if what == 'window' else 0.0):
+                                ctx.violation(sig + f'sky-compound-operator|{opname}|{what}', f'sky compound ({opname}, include {meta_.get("include", True)}) and its pixel image disagree on '
+                                              f'{int((b1 != b2).sum()) if b1.shape == b2.shape else "all"} of {b2.size} positions ({what})', case)
+                                return True
+        except Exception as ex:  # noqa
+            ctx.violation(sig + f'sky-compound-operator|raises|{type(ex).__name__}', f'sky compound with another operator raised {ex!r}', case)
             return True
     # points, lines and text contain nothing (everything when excluded): the sky region answers like its pixel image
     if r['k'] in ('point', 'line', 'text'):
